@@ -36,6 +36,9 @@ func init() {
 				for y := 0; y <= la; y++ {
 					add(arch, la, 0, y, 0)
 					add(arch, la, 0, y, 1)
+					if y <= 1 || c.Tier == "thorough" {
+						add(arch, la, 0, y, 2) // the scanner stops at a line above its limit (bufio.ErrTooLong)
+					}
 				}
 			}
 			if c.Tier != "thorough" {
@@ -54,7 +57,7 @@ func init() {
 		NeedCovers: []string{"cover.returned", "cover.scan_failed", "cover.find_called", "cover.reported", "cover.monotone"},
 		Bounds:     map[string]interface{}{"lines": "L <= 2 (quick) / 3 (thorough) symbolic lines, every prefix of them delivered; contents unbounded strings over printable ASCII + space + tab", "monotonicity": "1 line + 1 appended (quick); also 2+1 and 1+2 (thorough)", "parsers": "x86_64 (L lines) and i386 (L-1 lines)"},
 		Outside:    []string{"the leftmost-first semantics of the two regular expressions and number parsing inside findSyscallNum (summarised: arbitrary number or error)", "non-ASCII characters and white space other than space and tab", "listings longer than the bound (the loop body is the same for every line; no induction is claimed)", "the ARM parser (none exists)", "decided by z3 5.1.0 alone: cvc5 1.0.3 can hang on these queries and z3 4.8.12 times out, so there is no cross-check for string obligations"},
-		Assumptions: []string{"os.Open succeeds; bufio.Scanner is a model that delivers the first k lines and then stops, with Err() nil or non-nil", "strings.Fields: the number of fields (0, 1, 2, >= 3) is decided by membership; the fields themselves are opaque strings nobody inspects", "a function starts at a line with prefix TEXT (objdump format)", "findSyscallNum returns the same answer for the same line position in both runs of the monotonicity obligation"},
+		Assumptions: []string{"os.Open succeeds; bufio.Scanner is a model that delivers the first k lines and then stops, with Err() nil, an arbitrary error, or bufio.ErrTooLong (Scanner.Buffer moves the limit, it cannot remove it)", "strings.Fields: the number of fields (0, 1, 2, >= 3) is decided by membership; the fields themselves are opaque strings nobody inspects", "a function starts at a line with prefix TEXT (objdump format)", "findSyscallNum returns the same answer for the same line position in both runs of the monotonicity obligation"},
 		Trusted:    []string{"regular-language encoding of HasPrefix / Contains / slice bounds / field counts (gosym/lines.go) and its normalisation (sym/regex.go)", "model scanner and findSyscallNum summary (harness, ~80 lines)", "gosym engine; models replayed natively against disasm.go with its selectors rewritten to the stubs", "z3 5.1.0 string solver"},
 	})
 }
